@@ -68,18 +68,30 @@ class C01(Check):
             if T == "tx":
                 # the prefix of a transaction is itself a parsable object
                 seeds.append(("prefix", b, "generated-as-prefix"))
-        budget = 1200 if not thorough else 12000
+        nseed = {}
         for T, b, cls in seeds:
             hx = b.hex() or "-"
             cs.append(Case("reser %s %s %s" % (sz, T, hx), cls + "-" + T))
             if cls.startswith("corpus") and T == "block" and len(b) < 3000:
                 continue  # most literals are not blocks; mutate them as tx only (blocks come from the generator)
+            # budget: the first seeds of every (type, class) are mutated at (nearly) every offset, the rest sampled
+            k = nseed[(T, cls)] = nseed.get((T, cls), 0) + 1
+            if cls == "corpus":
+                budget = 1500
+            elif T in ("tx", "block"):
+                budget = 700 if k <= 40 else 40
+            elif T == "prefix":
+                budget = 300 if k <= 30 else 10
+            else:
+                budget = 150
+            if thorough:
+                budget *= 8
             muts = G.mutations_at_every_offset(b, rng)
             if len(muts) > budget:
                 muts = rng.sample(muts, budget)
             for m in muts:
                 cs.append(Case("reser %s %s %s" % (sz, T, m.hex() or "-"), "mut1-" + T))
-            for _ in range(20 if not thorough else 200):
+            for _ in range(4 if not thorough else 40):
                 m = G.multi_mutation(b, rng, rng.randint(2, 6))
                 cs.append(Case("reser %s %s %s" % (sz, T, m.hex() or "-"), "mutN-" + T))
         # structural dump comparison on the seeds (model dump = implementation dump)
